@@ -36,7 +36,7 @@ DESIGN_REF = "DESIGN.md section 3 (C07), section 4 (F4, F5)"
 def strategy(tier):
     @st.composite
     def case(draw):
-        c = draw(lossgen.loss_case(target_param="any-order", target_state=True, max_states=3, n_times=(3, 8), catalogue=1))
+        c = draw(lossgen.loss_case(target_param="any-order", target_state=True, max_states=3, n_times=(2, 8), catalogue=1))
         c["method"] = draw(st.sampled_from([None, None, "lsoda", "vode", "dopri5"]))
         c["entry"] = draw(st.sampled_from(["sensitivity", "gradient", "sensitivity-full", "sensitivityIV", "sensitivityIV", "jac"]))
         if c["entry"] != "sensitivityIV":
